@@ -17,7 +17,7 @@ func c06Blocked(sc *Scenario) (bool, string) {
 		if sc.Hostname != "router" {
 			return true, "hostname"
 		}
-		if !strings.Contains(strings.ToLower(sc.BannerText), "netspoc") {
+		if !strings.Contains(strings.ToLower(sc.BannerText), "netspoc") || sc.MarkerVsys == "first" {
 			return true, "marker"
 		}
 		if len(sc.Members) > 0 {
@@ -79,6 +79,11 @@ func oracleC06(c *props.Case) props.Verdict {
 	if sc.Family == "panos" {
 		// For PAN-OS the marker lives in the display-name, the hostname in the config.
 		disp := "vsys managed by " + sc.BannerText
+		if sc.MarkerVsys == "first" {
+			// only the first vsys is not managed by Netspoc
+			sc.Device = strings.Replace(sc.Device, " netspoc</display-name>", " of a customer</display-name>", 1)
+			disp = "vsys managed by NetSPoC"
+		}
 		sc.Device = panDevice(sc.Device, sc.Hostname, strings.TrimSpace(strings.ReplaceAll(disp, "\n", " ")))
 	}
 	blocked, why := c06Blocked(sc)
